@@ -1,6 +1,10 @@
 #!/bin/bash
-# offline setup: nothing to fetch; warm the caches the checks use (Kani target dir, replay crate)
+# offline setup: nothing to fetch; warm the caches the checks use (replay crate incl. the physics crate; Kani build of the detector crate)
 cd "$(dirname "$0")"
 mkdir -p work evidence
-python3 -c "import sys; sys.path.insert(0,'.'); from vtool import native; print('replay crate:', native._build('/repo', '$(pwd)')[0])" || true
+python3 -c "
+import sys; sys.path.insert(0,'.')
+from vtool import native
+print('replay crate:', native._build('/repo', '$(pwd)', physics=True))
+" || true
 exit 0
